@@ -1123,7 +1123,7 @@ def gen_cases(ctx, round, entry):
             f = [{"name": "i", "t": "i8", "o": ">", "shape": []}, {"name": "s", "t": "S2", "o": "|", "shape": []},
                  {"name": "x", "t": "f4", "o": "<", "shape": [2]}]
             cs.append(mk_case(r, f, nrows, r.choice(DELIMS), "many-rows", True))
-    n = ctx.n(120, 2200) if round == 0 else ctx.n(150, 1500)
+    n = ctx.n(120, 1800) if round == 0 else ctx.n(150, 1500)
     for _ in range(n):
         nf = r.choice([1, 2, 2, 3, 3, 4, 5, 6])
         fields = [rnd_field(r, i) for i in range(nf)]
